@@ -20,8 +20,7 @@ def known_class(info, entry):
         return "K_main_file_only"
     if r in CONE_RULES and info.get("in_cone") is False:
         return "K_main_file_only"
-    if entry in ("lib", "libgen") and r in IFACE_VERIFIER_RULES:
-        return "K_lib_no_iface_verifier"
+    # (the library entry point runs the interface verifier since its repair: no class of its own)
     if r == "objarr_two":
         return "K_two_objarr"
     if r == "objarr_objstruct_array_small" and info.get("dir") == "in":
